@@ -93,6 +93,9 @@ type VC struct {
 	muted     bool // inside a Go function evaluated for a contract: no obligations
 	curSt     *State
 	sl        *slicer
+	usedLemmas []string
+	heapReads map[string]Sort // collector of heap names read (recursive spec functions)
+	recHeaps  map[string][]string // rec function -> heaps its body reads
 	frameFacts []*FrameFact
 	qfacts    []*QFact
 	witnesses []*Witness
@@ -312,6 +315,9 @@ func (vc *VC) typeFacts(v Term, t types.Type, wm Term) Term {
 // ------------------------------------------------------------------- heaps
 
 func (vc *VC) heap(st *State, name string, sort Sort) Term {
+	if vc.heapReads != nil {
+		vc.heapReads[name] = sort
+	}
 	if t, ok := st.heaps[name]; ok {
 		return t
 	}
